@@ -391,6 +391,29 @@ def grid_job(job):
     return acc
 
 
+def platform_pair_job(job):
+    """The two ET platforms encode eco groups differently (x1 / x10): all combinations of group-1 contents of both objects,
+    one object only reading, the other using the emulated modes."""
+    part, parts = job
+    acc = Acc()
+    i = 0
+    for va, vb in (("ET-v2", "ET-745"), ("ET-745", "ET-v2"), ("ES-v2", "ET-745"), ("ET-745", "ES-v2")):
+        for ga in GROUP_CONTENT:
+            for gb in GROUP_CONTENT:
+                for style_b in (1, 2):
+                    i += 1
+                    if i % parts != part:
+                        continue
+                    sa = [["read_setting", "eco_mode_1"], ["read_setting", "eco_mode_2"], ["get_mode"], ["read_setting", "eco_mode_1"]]
+                    sb = seq_for(vb, style_b, i)
+                    merge = ["A", "B", "A", "B", "A", "B", "A", "B", "B"]
+                    case = {"objects": {"A": {"variant": va, "salt": i % 97, "groups": [ga, "off", "window", "off"]},
+                                        "B": {"variant": vb, "salt": (i * 3) % 89 + 1, "groups": [gb, "window", "off", "peak"]}},
+                            "seq": {"A": sa, "B": sb}, "merge": merge}
+                    _apply(acc, case)
+    return acc
+
+
 def hyp_job(job):
     seed, n = job
     from hypothesis import strategies as st
@@ -434,6 +457,7 @@ def hyp_job(job):
 
 def run(ctx):
     ctx.shard(grid_job, [(p, 16, ctx.quick) for p in range(16)], "all ordered variant pairs x group-1 contents x 5 sequence styles, alternating merges (3 fresh library imports per case)")
+    ctx.shard(platform_pair_job, [(p, 16) for p in range(16)], "cross-platform pairs (x1 / x10 eco encodings): all group-1 content combinations, reader vs emulated-mode writer")
     ctx.shard(e2e_job, [(p, 16) for p in range(16)], "end-to-end: both objects driven by concurrent tasks on one virtual loop (overlapping requests, per-peer latency)")
     n = ctx.pick(160, 8000)
     ctx.shard(hyp_job, [(ctx.seed * 1000 + i, n // 16) for i in range(16)], "hypothesis sequences and merges")
